@@ -103,9 +103,10 @@ fn show_err(e: &WebsocketError) -> String {
 
 /// reads the client side until EOF (or the hard limit); returns (bytes, eof seen)
 fn reader(mut c: TcpStream) -> std::thread::JoinHandle<(Vec<u8>, bool)> {
+    // buffers are allocated here, before the server side starts metering its heap growth
+    let mut out: Vec<u8> = Vec::with_capacity(4096);
+    let mut buf = vec![0u8; 65536];
     std::thread::spawn(move || {
-        let mut out = Vec::new();
-        let mut buf = vec![0u8; 65536];
         let t0 = Instant::now();
         c.set_read_timeout(Some(Duration::from_millis(200))).unwrap();
         loop {
@@ -171,6 +172,7 @@ fn run_blocking(echo: bool, limit: Option<usize>, end: &str, plan: &str) -> Stri
     let keep = srv.try_clone().unwrap(); // keeps the socket open after the WebsocketStream has been dropped
     let unblock = srv.try_clone().unwrap();
     let (tx, rx) = channel::<(Vec<String>, usize)>();
+    let rd = reader(cli.try_clone().unwrap());
     let server = std::thread::spawn(move || {
         let base = crate::meter::start();
         let mut ws = WebsocketStream::new(Stream::Tcp(srv));
@@ -202,7 +204,6 @@ fn run_blocking(echo: bool, limit: Option<usize>, end: &str, plan: &str) -> Stri
         let _ = tx.send((log, peak));
         finish_server_side(keep);
     });
-    let rd = reader(cli.try_clone().unwrap());
     let mut cli = cli;
     for it in &items {
         match it {
